@@ -102,7 +102,7 @@ func goDiff(a, b reflect.Value, path string, depth int) string {
 	}
 	switch t := a.Type(); {
 	case t == reflect.TypeFor[time.Time]():
-		if !a.Interface().(time.Time).Equal(b.Interface().(time.Time)) {
+		if a.Interface().(time.Time).Unix() != b.Interface().(time.Time).Unix() { // KMIP carries whole seconds
 			return fmt.Sprintf("%s: %v vs %v", path, a.Interface(), b.Interface())
 		}
 		return ""
@@ -225,15 +225,21 @@ func CheckMessage(c *core.Ctx, prop string, msg any, minor int, desc string) ([]
 	back := reflect.New(reflect.TypeOf(msg).Elem()).Interface()
 	var derr error
 	in := append([]byte{}, enc...)
+	inputChanged := false
 	// the decoded message must be equal in content to the original whatever happens to the receive
 	// buffer afterwards: the buffer is overwritten as soon as the decoder has returned
 	if p, v, st := core.Guard(func() {
 		derr = ttlv.UnmarshalTTLV(in, back)
+		inputChanged = !bytes.Equal(in, enc)
 		for k := range in {
 			in[k] = 0x5A
 		}
 	}); p {
 		c.Violation(core.PanicSig(v, st), fmt.Sprintf("UnmarshalTTLV panicked on the library's own encoding: %v", v), map[string]any{"message": desc, "bytes": hx(enc), "stack": st})
+		return enc, false
+	}
+	if inputChanged {
+		c.Violation(prop+":decoder-modified-its-input", "decoding the library's own encoding rewrote the bytes it was given: what was received is no longer what the decoded message re-encodes to", map[string]any{"message": desc, "bytes": hx(enc)})
 		return enc, false
 	}
 	if derr != nil {
